@@ -183,6 +183,7 @@ class Builder:
                  thread_returns: bool = True):
         self.assert_raises = assert_raises
         self.thread_returns = thread_returns
+        self.split_ifexp = True
         self.p = prog
         self.r = resolver
         self.inline = inline
@@ -418,6 +419,18 @@ class Builder:
             self._expr(s.value, frame)
             if not isinstance(s.value, ast.Call):
                 self._emit('stmt', s, frame)
+        elif isinstance(s, ast.Assign) and isinstance(s.value, ast.IfExp) \
+                and self.split_ifexp:
+            # x = A if c else B   ==   if c: x = A  else: x = B
+            # (keeps which value was assigned correlated with the test)
+            a = ast.Assign(targets=s.targets, value=s.value.body)
+            b = ast.Assign(targets=s.targets, value=s.value.orelse)
+            for n2 in (a, b):
+                ast.copy_location(n2, s)
+                n2.end_lineno = getattr(s, 'end_lineno', None)
+            iff = ast.If(test=s.value.test, body=[a], orelse=[b])
+            ast.copy_location(iff, s)
+            self._stmt(iff, frame)
         elif isinstance(s, (ast.Assign, ast.AugAssign, ast.AnnAssign)):
             if getattr(s, 'value', None) is not None:
                 self._expr(s.value, frame)
